@@ -157,4 +157,15 @@ Print Assumptions C09_remove_private_all.
 Theorem C09_prepend_keeps_segments_wellformed : forall a c p, Forall seg_ok (opt_segs p) -> Forall seg_ok (prepend a c p).
 Proof. exact prepend_seg_ok. Qed.
 Print Assumptions C09_prepend_keeps_segments_wellformed.
+(* replace-peer-as: in the route handed on to the rest of the export the peer's AS does not occur any more (it became the
+   local AS), the segments keep their types and lengths, and every other AS number was there before *)
+Theorem C09_replace_peer_as : forall local peer p, local <> peer ->
+  (forall s, In s (opt_segs (replace_as local peer p)) -> ~ In peer (snd s)) /\
+  map (fun s : seg => (fst s, length (snd s))) (opt_segs (replace_as local peer p)) = map (fun s : seg => (fst s, length (snd s))) (opt_segs p) /\
+  (forall s a, In s (opt_segs (replace_as local peer p)) -> In a (snd s) -> a <> local -> exists s0, In s0 (opt_segs p) /\ In a (snd s0)).
+Proof.
+  intros local peer p H. split; [exact (replace_as_no_peer local peer p H)|]. split; [exact (replace_as_shape local peer p)|].
+  intros s a. exact (replace_as_elsewhere local peer p s a).
+Qed.
+Print Assumptions C09_replace_peer_as.
 End X.
